@@ -359,6 +359,27 @@ class EMAliasFirst(EMBase):
 EM_KINDS = [EMPlain, EMDerived, EMAlias, EMList, EMDict, EMWithNN, EMNested, EMWithNNPartial, EMAliasFirst]
 
 
+class EMClassAttr(EMBase):
+    # one declared tensor is inherited from the class (shared by all instances): the instance's own __dict__
+    # holds no entry for it, and must hold none after a call either
+    NAMES = ["W", "b", "gain"]
+    gain = torch.tensor(1.0, dtype=DT).requires_grad_()
+
+    def __init__(self, W, b):
+        self.W = W
+        self.b = b
+
+    def _W(self):
+        return self.W
+
+    def _b(self):
+        return self.b * self.gain
+
+
+# kinds used by the C10 histories only (the other checks keep ALL_KINDS, whose references know W and b only)
+C10_EXTRA_KINDS = [EMClassAttr]
+
+
 class EMCallProxy(EditableModule):
     """a callable EditableModule (the functional is handed the *object*, not a method) that forwards to one
     method of an inner EditableModule, declaring the inner parameters with a prefix"""
